@@ -1,0 +1,18 @@
+//go:build !verif
+// +build !verif
+
+package osm
+
+import "github.com/paulmach/osm"
+
+// Without the verif build tag the scheduling hook is an empty function that
+// the compiler removes.
+
+const (
+	verifWorkerRecv = iota
+	verifWorkerDone
+	verifFeed
+	verifClose
+)
+
+func verifHook(int, osm.Object) {}
